@@ -431,6 +431,29 @@ def _alias_alts(v):
     return None
 
 
+def _none_test(t):
+    """truth of `<known value> is None` / `is not None`, or None when the value is not known"""
+    neg = False
+    while isinstance(t, tuple) and t and t[0] == 'not':
+        t, neg = t[1], not neg
+    if not (isinstance(t, tuple) and t and t[0] == 'call' and t[1] in ('is', 'isnot') and len(t[2]) == 2):
+        return None
+    a, b = t[2]
+    if b != ('sym', 'None'):
+        a, b = b, a
+    if b != ('sym', 'None'):
+        return None
+    if a == ('sym', 'None'):
+        r = True
+    elif isinstance(a, tuple) and a and a[0] == 'tuple':
+        r = False
+    else:
+        return None
+    if t[1] == 'isnot':
+        r = not r
+    return (not r) if neg else r
+
+
 class Path:
     def __init__(self, conds, env, value, how, line, effects):
         self.conds, self.env, self.value, self.how, self.line, self.effects = conds, env, value, how, line, effects
@@ -639,6 +662,11 @@ class PEval:
             if isinstance(s, ast.If):
                 test = self.ex(s.test, env)
                 rest = stmts[i + 1:]
+                known = _none_test(test)
+                if known is not None:
+                    # `x is None` on a value the evaluation knows (the literal None, or a freshly built tuple): only one branch is live
+                    self._walk(list(s.body if known else s.orelse) + rest, dict(env), conds, list(effects))
+                    return
                 self._walk(list(s.body) + rest, dict(env), conds + [(test, True)], list(effects))
                 self._walk(list(s.orelse) + rest, dict(env), conds + [(test, False)], list(effects))
                 return
@@ -718,6 +746,7 @@ class PEval:
         sub.b = self.b
         sub.loopctx = self.loopctx + (tag,)
         sub.maxpaths = self.maxpaths
+        sub.ignore, sub.inline = self.ignore, self.inline          # (path-shaping options stay per level: rules read loop paths as written)
         sub._walk(list(s.body), dict(sub_env), conds + c0, [])
         seen = set()
         for p in sub.paths:
